@@ -281,6 +281,124 @@ def gen00(rng):
     return secs
 
 
+# ------------------------------------------------------------------------------------------------ pre-productmd: literals and mapping table
+def literals00():
+    """every string literal the `deserialize_0_0` readers of the tree under test compare against (==, in, startswith), by class"""
+    import ast
+    src = open(os.path.join(REPO, "productmd", "treeinfo.py")).read()
+    out = {}
+    for cls in [n for n in ast.parse(src).body if isinstance(n, ast.ClassDef)]:
+        for fn in [n for n in cls.body if isinstance(n, ast.FunctionDef) and n.name == "deserialize_0_0"]:
+            lits = []
+            for node in ast.walk(fn):
+                if isinstance(node, ast.Compare):
+                    for c in [node.left] + list(node.comparators):
+                        for x in ast.walk(c):
+                            if isinstance(x, ast.Constant) and isinstance(x.value, str):
+                                lits.append(x.value)
+                elif isinstance(node, ast.Call) and isinstance(node.func, ast.Attribute) and node.func.attr in ("startswith", "endswith"):
+                    for x in node.args:
+                        if isinstance(x, ast.Constant) and isinstance(x.value, str):
+                            lits.append(x.value)
+            out[cls.name] = list(dict.fromkeys(lits))
+    return out
+
+
+# The documented mapping of pre-productmd files (the table of the unchanged code IS the documentation; written out here so
+# that a changed branch is an oracle failure on the real library, not only a disagreement with the model).
+FAMILY_EXACT = {"Subscription Asset Manager": "SAM", "Red Hat Storage": "RHS", "JBEAP": "JBEAP",
+                "Red Hat Storage Software Appliance": "SSA"}
+FAMILY_PREFIX = [("Red Hat Enterprise Linux", "RHEL"), ("Fedora", "Fedora"), ("CentOS", "CentOS"), ("EulerOS", "EulerOS")]
+FAMILY_VARIANT = {"Red Hat Enterprise Linux Server": "Server", "Red Hat Enterprise Linux Client": "Client", "CentOS": "CentOS"}
+RHEL5_ADDONS = {"Client": lambda arch, minor: ["VT", "Workstation"],
+                "Server": lambda arch, minor: (["Cluster", "ClusterStorage", "VT"] if arch in ("i386", "ia64", "x86_64") else
+                                               ([] if minor == "0" else ["Cluster", "ClusterStorage"]) if arch == "ppc" else [])}
+
+
+def release00(family):
+    """family -> (release name, short name)"""
+    if family in FAMILY_EXACT:
+        return family, FAMILY_EXACT[family]
+    for pre, short in FAMILY_PREFIX:
+        if family.startswith(pre):
+            return pre, short
+    return family, ""
+
+
+def expect00_table(g):
+    """expected variant facts of a table case: [general] only, no variant/addon sections, no `addons` option.
+    -> None (refused by design) or {"uid", "kids": [...], "packages", "repository"}"""
+    name, short = release00(g["family"])
+    major = g["version"].split(".")[0]
+    parts = g["version"].split(".")
+    minor = parts[1] if len(parts) > 1 else None
+    uid = g.get("variant") or FAMILY_VARIANT.get(g["family"]) if "variant" not in g else (g["variant"] or short)
+    if not uid:
+        return None
+    vid = uid.split("-")[-1]
+    rhel = lambda majors: short == "RHEL" and major in majors
+    repo = "."
+    if rhel(("5", "6")):
+        repo = vid
+    if rhel(("3", "4")):
+        repo = None
+    pk = g["packagedir"] if "packagedir" in g else repo
+    pk = (pk or "").rstrip("/") or "."
+    if rhel(("5",)):
+        pk = vid
+    elif rhel(("3", "4")):
+        pk = "RedHat/RPMS"
+    elif short == "Fedora" and pk == ".":
+        pk = "Packages"
+    kids = []
+    if rhel(("5",)) and uid in RHEL5_ADDONS:
+        kids = RHEL5_ADDONS[uid](g["arch"], minor)
+    paths = {}
+    pre = "source_" if g["arch"] == "src" else ""
+    if pk is not None:
+        paths[pre + "packages"] = pk
+    if repo is not None:
+        paths[pre + "repository"] = repo
+    return {"uid": uid, "kids": ["%s-%s" % (uid, k) for k in kids], "paths": paths}
+
+
+def table00_cases():
+    """one pre-productmd file per literal of the 0.0 readers: every family of the chain, with an extension and a proper prefix of
+    each (first-match traps), RHEL majors 3-7, the arches of the RHEL 5 addon table, minor version 0"""
+    lit = literals00()
+    fams = list(lit.get("Release", [])) + list(lit.get("Variants", []))
+    fams = [f for f in dict.fromkeys(fams) if f and f[0].isupper() and f not in ("Server", "Client")]
+    pool = []
+    for f in fams:
+        pool += [f, f + " X", f + "7", f[:-1]]
+    pool += ["Spacewalk", "openSUSE Leap", "fedora"]
+    pool = list(dict.fromkeys(pool))
+    digits = sorted(set(x for v in lit.values() for x in v if x.isdigit()))
+    majors = sorted(set([d for d in digits if d != "0"] + ["7"]))
+    arches = [a for a in dict.fromkeys(lit.get("Variant", [])) if a and a.islower() and a not in ("variant", "addon", "optional")]
+    arches += ["src", "aarch64"]
+    out = []
+    i = 0
+    for f in pool:
+        g = {"family": f, "version": ["7.0", "21", "5.8", "6.5"][i % 4], "arch": arches[i % len(arches)]}
+        if f not in FAMILY_VARIANT or i % 2:
+            g["variant"] = ["Server", "Client", "Workstation", ""][i % 4]
+        if i % 3 == 0:
+            g["packagedir"] = ["", "Server", "Packages/"][(i // 3) % 3]
+        out.append(g); i += 1
+    for f in ("Red Hat Enterprise Linux Server", "Red Hat Enterprise Linux Client", "Red Hat Enterprise Linux"):
+        for major in majors:
+            for minor in ("0", "8", None):
+                for arch in (arches if major == "5" else arches[i % len(arches):][:1]):
+                    g = {"family": f, "version": major if minor is None else "%s.%s" % (major, minor), "arch": arch}
+                    if f == "Red Hat Enterprise Linux":
+                        g["variant"] = ["Server", "Client"][i % 2]
+                    if i % 4 == 0:
+                        g["packagedir"] = ["Server", ""][(i // 4) % 2]
+                    out.append(g); i += 1
+    return out
+
+
 # ------------------------------------------------------------------------------------------------ rpms content
 R_NAMES = ["bash", "glibc", "python3-foo", "gtk2", "a-b-c", "x", "lib-2"]
 R_VERSIONS = ["4.3.30", "2.17", "1", "0.9_rc1", "20150101"]
@@ -379,6 +497,9 @@ class C05(Prop):
         checklib.use_repo()
         for fmt, name in fixture_list():
             yield {"op": "fixture", "args": {"fmt": fmt, "name": name}}
+        tab = table00_cases()
+        for g0 in tab:
+            yield {"op": "ti00", "args": {"text": L.ini_text({"general": g0}), "table": g0}}
         g = CF.Gen(rng, tier)
         cnt = {"ci": 0, "img": 0, "ti": 0, "rpms": 0}
 
@@ -701,6 +822,21 @@ class C05(Prop):
         if cp.has_section("header") or not cp.has_section("general"):
             return None
         g = dict(cp.items("general"))
+        if "family" in g:
+            want = release00(g["family"])
+            got = (snap["release"]["name"], snap["release"]["short"])
+            if got != want:
+                return {"at": "release (name, short)", "observed": list(got), "expected": list(want), "family": g["family"]}
+        tab = case["args"].get("table")
+        if tab is not None:
+            e = expect00_table(tab)
+            if e is not None:
+                vs = snap["variants"]
+                got = None if len(vs) != 1 else {"uid": vs[0]["uid"], "kids": sorted(c["uid"] for c in vs[0]["variants"]),
+                                                 "paths": dict((k, v) for k, v in vs[0]["paths"] if k != "identity")}
+                e = dict(e, kids=sorted(e["kids"]))
+                if got != e:
+                    return {"at": "variant derived from [general]", "observed": got, "expected": e, "general": tab}
         if "arch" in g and snap["tree"]["arch"] != g["arch"]:
             return {"at": "tree.arch", "observed": snap["tree"]["arch"], "expected": g["arch"]}
         if "timestamp" in g:
